@@ -10,6 +10,9 @@
 //!     H<k>   send_request / send_response whose field section has size exactly k
 //!     T<k>   send_trailers of size exactly k on the last message stream
 //!     -> one token per op: `S` | `H:ok:<payload>` | `H:err:<scope:code:variant>:<written payload|->` (same for T; `T:nostream`)
+//! `lim.txw cli <own> <P|-> <k>`   back-pressure: send_request (size k) is started while the peer grants NO bidirectional stream
+//!     credit, so the call parks in poll_open_bidi; the peer's SETTINGS then arrive and are processed by the driver; only then
+//!     is credit granted.  -> `ok W:ok:<payload>` | `ok W:err:<scope:code:variant>:<written|->`
 //! (k is reached with one extra field `x: vvv..`; request base 167 = GET https://a/, response base 42 = 200, trailers base 0)
 use bytes::Bytes;
 use h3v::simquic::*;
@@ -424,8 +427,68 @@ async fn tx_cli(w: Shared, own: u64, p: Option<u64>, ops: Vec<String>, cancel: R
     out.join(" ")
 }
 
+async fn txw_cli(w: Shared, own: u64, p: Option<u64>, k: u64, cancel: Rc<Cell<bool>>) -> String {
+    let mut b = h3::client::builder();
+    b.send_grease(false).max_field_section_size(own);
+    let (mut conn, mut sr): (h3::client::Connection<SimConn, Bytes>, h3::client::SendRequest<SimOpener, Bytes>) =
+        match cancellable(b.build(SimConn { world: w.clone() }), &cancel).await {
+            Some(Ok(c)) => c,
+            _ => return "build-err".into(),
+        };
+    let mut rb = http::Request::builder().method("GET").uri("https://a/");
+    if let Some(v) = value_for(k, REQ_BASE) {
+        rb = rb.header("x", v);
+    }
+    let known: Vec<u64> = w.lock().unwrap().streams.keys().cloned().collect();
+    let mut fut = Box::pin(sr.send_request(rb.body(()).unwrap()));
+    // 1. start the call: no stream credit, it must park
+    let first = poll_fn(|cx| match fut.as_mut().poll(cx) {
+        Poll::Ready(x) => Poll::Ready(Some(x)),
+        Poll::Pending => Poll::Ready(None),
+    })
+    .await;
+    let r = match first {
+        Some(r) => {
+            drop(fut);
+            return format!("W:not-parked:{}", if r.is_ok() { "ok" } else { "err" });
+        }
+        None => {
+            // 2. the peer's SETTINGS arrive and the driver stores them
+            ev(&w, "U3".into());
+            chunk_ev(&w, 3, &control_stream_bytes(p));
+            let _ = poll_once(poll_fn(|cx| conn.poll_close(cx))).await;
+            // 3. credit for one bidirectional stream
+            ev(&w, "H1".into());
+            cancellable(fut, &cancel).await
+        }
+    };
+    let newid: Option<u64> = {
+        let g = w.lock().unwrap();
+        g.streams.keys().cloned().find(|i| !known.contains(i) && i & 3 == 0)
+    };
+    let written = match newid {
+        Some(i) => tx_since(&w, i, 0),
+        None => "-".into(),
+    };
+    let out = match r {
+        Some(Ok(s)) => {
+            std::mem::forget(s);
+            format!("W:ok:{}", written)
+        }
+        Some(Err(e)) => format!("W:err:{}:{}", stream_err(&e), written),
+        None => "W:hang".into(),
+    };
+    std::mem::forget(conn);
+    std::mem::forget(sr);
+    out
+}
+
 fn drive<F: Future<Output = String> + 'static>(mk: impl FnOnce(Shared, Rc<Cell<bool>>) -> F, side: Side) -> (String, Shared) {
-    let w = World::new(side, 1000, 1000, None);
+    drive_with(mk, side, 1000)
+}
+
+fn drive_with<F: Future<Output = String> + 'static>(mk: impl FnOnce(Shared, Rc<Cell<bool>>) -> F, side: Side, bidi_credit: u64) -> (String, Shared) {
+    let w = World::new(side, 1000, bidi_credit, None);
     let cancel = Rc::new(Cell::new(false));
     let mut ex = Exec::new();
     let t = ex.spawn(mk(w.clone(), cancel.clone()));
@@ -487,6 +550,13 @@ fn main() {
             } else {
                 drive(move |w, c| tx_cli(w, own, p, ops, c), Side::Client)
             };
+            format!("ok {}", res)
+        }
+        ["lim.txw", "cli", own, p, k] => {
+            let own: u64 = own.parse().unwrap();
+            let p: Option<u64> = if *p == "-" { None } else { Some(p.parse().unwrap()) };
+            let k: u64 = k.parse().unwrap();
+            let (res, _w) = drive_with(move |w, c| txw_cli(w, own, p, k, c), Side::Client, 0);
             format!("ok {}", res)
         }
         _ => "driver-error unknown-case".into(),
